@@ -111,7 +111,9 @@ pub fn gen_msg(r: &mut Rng) -> M {
             M::Cr(create::Msg {
                 sid: r.u32b(), init_cwnd: r.u32b(), mss: r.u32b(), src_ip: r.u32b(),
                 src_port: r.u32b(), dst_ip: r.u32b(), dst_port: r.u32b(),
-                cong_alg: if nl == 0 { None } else { Some(gen_name(r, nl)) },
+                cong_alg: if nl == 0 { None } else if r.chance(1, 6) {
+                    Some((*r.pick(&["tcp_cubic", "tcp_reno", "tcp_bbr", "tcp_", "tcp", "TCP_vegas", "ccp_cubic", "cubic ", " reno", "reno\n", "Reno", "RENO", "réno"])).to_string())
+                } else { Some(gen_name(r, nl)) },
             })
         }
         4..=8 => {
@@ -169,6 +171,19 @@ pub fn run_c04(tier: &str, seed: u64, out: &mut dyn Write) {
                 put_hdr(&mut buf, t, dl as u32);
                 emit(out, "frombuf", &hex(&buf), &frombuf_str(&buf));
                 k += 1;
+            }
+        }
+    }
+    // creates longer than the encoder would make them: a name of 60..130 bytes before its NUL, ASCII or not
+    for nl in [60usize, 62, 63, 64, 65, 66, 70, 100, 127, 128, 130] {
+        for fill in [b'a', b'Z', 0xc3u8] {
+            for extra in [0usize, 1, 5] {
+                let mut buf = vec![0u8; 8];
+                for w in 0..6u32 { buf.extend((0x0101_0101u32 * (w + 1)).to_le_bytes()); }
+                buf.extend(std::iter::repeat(fill).take(nl)); buf.push(0); buf.extend(std::iter::repeat(b'q').take(extra));
+                let total = buf.len() as u32;
+                put_hdr(&mut buf, 0, total);
+                emit(out, "frombuf", &hex(&buf), &frombuf_str(&buf));
             }
         }
     }
